@@ -90,11 +90,25 @@ ROUND3 = {
  "C20": " Duo: a second connection keeps answering (and completing the pieces the silent one holds) while the first stays silent: the silent one must still be dropped within three intervals.",
 }
 
+# additions after the fourth round of seeded changes
+ROUND4 = {
+ "C03": " Each geometry is extracted twice: into an empty directory and again after every output path was overwritten with a longer file of other bytes (an earlier release, an interrupted run): the result must be exactly the described files both times.",
+ "C04": " Multi-file torrents come in 7 layouts: the file carrying the enumerated path is first / in the middle / last / the only one and 2 bytes long, empty, or spanning two pieces; single-file torrents with content lengths 3, 0 and 9.",
+ "C05": " Sibling values include the byte string info itself (two length spellings), i.e. a value that looks like the key; the family without announce is run in full.",
+ "C09": " A second BFS scenario puts a manager-only peer P (bitfield, interest changes) next to the connection so that both change in the same rotations (depth 13 / 16).",
+ "C14": " roles-*: 12 interested peers whose two reported rates order them in opposite ways, on a 2-piece torrent whose pieces are missing / owned / reserved in 7 combinations: the ranking must follow the rate of the downloader role unless the client owns every piece.",
+ "C15": " Long documents: 12 small values behind a filler string of every length 0..=600 (thorough 0..=5000, and around 2^10..2^17) in three layouts, so that nested containers start at every byte offset across the 255/256 boundaries; nesting ladders of depth 1..=256.",
+ "C17": " Every proper prefix and every single-byte deletion of every accepted grammar document (a damaged .torrent) goes through the same obligations: read or refused, never a panic.",
+ "C18": " Total lengths {0, 1, 2^31-1, 2^32, 2^40, 2^40+1, 2^53+1, 2^63-1, 2^63, 2^63+1, 2^64-1}, those above 2^63-1 as multi-file torrents: left must be the decimal total.",
+ "C19": " Budget cases: the good reply (after 0..3 faults) arrives while 7..=13 of 15 connected peers are interesting: no panic or hang, still serving, min(3, max(0, 11-j)) of the listed peers dialled at once, the others exactly once as connections end.",
+ "C20": " Timed scripts also contain decisions of the manager's choke rotation (Rotate) and interest changes of the peer: a Choke/Unchoke written by the client is not a sign of life of the peer.",
+}
+
 def main():
     checks = []
     for pid in sorted(CHECKS):
         level, technique, engine, text, note, ref = CHECKS[pid]
-        text = text + ROUND3.get(pid, "")
+        text = text + ROUND3.get(pid, "") + ROUND4.get(pid, "")
         checks.append({
             "property_id": pid,
             "quick_cmd": "./check %s --tier quick" % pid,
